@@ -18,6 +18,8 @@ import (
 	"github.com/spikeekips/mitum/util/valuehash"
 	"github.com/spikeekips/mitum/zzverif/vlib"
 	"github.com/spikeekips/mitum/zzverif/vsched"
+	goleveldbopt "github.com/syndtr/goleveldb/leveldb/opt"
+	goleveldbstorage "github.com/syndtr/goleveldb/leveldb/storage"
 )
 
 // C08: for each (stage point, suffrage-confirm flag) the local node signs and
@@ -32,12 +34,12 @@ import (
 
 type c08stubHandler struct{ s StateType }
 
-func (h c08stubHandler) state() StateType                                  { return h.s }
-func (h c08stubHandler) enter(StateType, switchContext) (func(), error)    { return func() {}, nil }
-func (h c08stubHandler) exit(switchContext) (func(), error)                { return func() {}, nil }
-func (h c08stubHandler) newVoteproof(base.Voteproof) error                 { return nil }
-func (h c08stubHandler) allowedConsensus() bool                            { return true }
-func (h c08stubHandler) whenSetAllowConsensus(bool)                        {}
+func (h c08stubHandler) state() StateType                               { return h.s }
+func (h c08stubHandler) enter(StateType, switchContext) (func(), error) { return func() {}, nil }
+func (h c08stubHandler) exit(switchContext) (func(), error)             { return func() {}, nil }
+func (h c08stubHandler) newVoteproof(base.Voteproof) error              { return nil }
+func (h c08stubHandler) allowedConsensus() bool                         { return true }
+func (h c08stubHandler) whenSetAllowConsensus(bool)                     {}
 
 type c08env struct {
 	networkID base.NetworkID
@@ -128,8 +130,8 @@ func (e *c08env) ballot(s c08spec) base.Ballot {
 }
 
 type c08scenario struct {
-	state    StateType
-	delivers [][]c08spec // per thread
+	state       StateType
+	delivers    [][]c08spec // per thread
 	rebroadcast bool
 }
 
@@ -156,7 +158,12 @@ func c08key(bl base.Ballot) string {
 }
 
 func c08build(e *c08env, s c08scenario, ballots map[string]base.Ballot) vsched.Scenario {
-	pool, err := isaacdatabase.NewTempPool(leveldbstorage.NewMemStorage(), e.encs, e.enc, 0)
+	// small write buffer: goleveldb otherwise allocates and clears a 4 MiB memtable per Open (82% of the run time)
+	lst, err := leveldbstorage.NewStorage(goleveldbstorage.NewMemStorage(), &goleveldbopt.Options{WriteBuffer: 64 << 10})
+	if err != nil {
+		panic(err)
+	}
+	pool, err := isaacdatabase.NewTempPool(lst, e.encs, e.enc, 0)
 	if err != nil {
 		panic(err)
 	}
